@@ -72,7 +72,8 @@ MergeAll(outs, S) == IF S = {} THEN [ok |-> TRUE, v |-> Empty]
                              ELSE [ok |-> TRUE, v |-> r.v @@ outs[s]]
 OutOf(n, v) == (n :> [n |-> n, i |-> v])
 \* echo nodes return their input unchanged (so that equal keys can meet at a fan-in and the merge can fail)
-NodeOut(gg, n, v) == IF n \in Range(gg.echo) THEN v ELSE OutOf(n, v)
+\* (a node of kind "empty" works normally but hands on a stream without a single chunk: it contributes nothing)
+NodeOut(gg, n, v) == IF n \in Range(gg.echo) THEN v ELSE IF FailKind(gg, n) = "empty" THEN Empty ELSE OutOf(n, v)
 \* the harness state carries pointer (nil / non-nil) and container fields that no handler touches: their digest must never change
 FreshStateDigest == "true|7|1|u,v|5|true|3|own"
 \* state handlers that modify what they pass on (scenario flag hmod): the pre-handler adds the key "pre" to the node's input,
@@ -428,6 +429,8 @@ ErrorWhy(gg, V, e) == LET c == e.class IN
                                  /\ (e.path = PathOf(gg, p) \/ (gg.lower = "chain" /\ Len(e.path) = Len(PathOf(gg, p)))) THEN "max-steps-error-not-expected"
         ELSE IF ~e.is THEN "max-steps-sentinel-not-matchable" ELSE "ok")
   \* (the store refused the checkpoint write: the call must fail with that error instead of returning an interrupt nobody can resume)
+  \* (whoever has to concatenate a stream without chunks fails: a value-form consumer, handler or branch condition behind an "empty" node)
+  ELSE IF c = "emptystream" THEN (IF \E p \in DOMAIN V : \E n \in GNodes(V[p].g) : FailKind(V[p].g, n) = "empty" THEN "ok" ELSE "unexpected-error")
   ELSE IF c = "store" THEN (IF gg.storefail THEN "ok" ELSE "store-error-without-a-refused-write")
   ELSE IF c = "canceled" THEN
        (IF ~CancelRan(V) THEN "canceled-without-cancel" ELSE IF ~e.is THEN "context-error-not-matchable" ELSE "ok")
